@@ -161,44 +161,66 @@ theorem dsat_typevar (hs : List DHint) (x : Obj) : dsat D (.typevar hs) x = satA
   simp [dsat, toHint, sat]
 
 mutual
-theorem ign_sat (hD : D.Wf) : ∀ (h : DHint), h.Sem D → ign D h = true → ∀ x, dsat D h x = true
+theorem ignS_sat (hD : D.Wf) : ∀ (h : DHint), h.Sem D → ignS D h = true → ∀ x, dsat D h x = true
   | .any, hs, _, _ => by simp [DHint.Sem] at hs
   | .cls c, _, hi, x => by
     rw [dsat_cls]
-    simp only [ign, Bool.or_eq_true, beq_iff_eq] at hi
+    simp only [ignS, Bool.or_eq_true, beq_iff_eq] at hi
     rcases hi with e | e
     · subst e; simp [inst, hD.nt_obj, hD.obj_top]
     · simp [inst, e, hD.obj_top]
   | .union hs, hs', hi, x => by
     rw [dsat_union]
     simp only [DHint.Sem] at hs'
-    simp only [ign] at hi
-    exact ignAny_sat hD hs hs'.2 hi x
+    simp only [ignS] at hi
+    exact ignSAny_sat hD hs hs'.2 hi x
+  | .typevar hs, hs', hi, x => by
+    rw [dsat_typevar]
+    simp only [DHint.Sem] at hs'
+    simp only [ignS] at hi
+    exact ignSAny_sat hD hs hs'.2 hi x
+  | .annotated h _, hs, hi, x => by
+    simp only [DHint.Sem] at hs
+    simp only [ignS] at hi
+    have := ignS_sat hD h hs hi x
+    simpa [dsat, toHint] using this
+  | .literal _, _, hi, _ => by simp [ignS] at hi
+  | .tupleFixed _, _, hi, _ => by simp [ignS] at hi
+  | .tupleVar _, _, hi, _ => by simp [ignS] at hi
+  | .cont _ _ _, _, hi, _ => by simp [ignS] at hi
+  | .mapping _ _ _, _, hi, _ => by simp [ignS] at hi
+  | .callable _ _ _ _, _, hi, _ => by simp [ignS] at hi
+theorem ignSAny_sat (hD : D.Wf) : ∀ (hs : List DHint), SemAll D hs → ignSAny D hs = true → ∀ x, satAny D.W (toHints D hs) x = true
+  | [], _, hi, _ => by simp [ignSAny] at hi
+  | h :: hs, hs', hi, x => by
+    simp only [SemAll] at hs'
+    simp only [ignSAny, Bool.or_eq_true] at hi
+    simp only [toHints, satAny, Bool.or_eq_true]
+    rcases hi with hi | hi
+    · left; exact ignS_sat hD h hs'.1 hi x
+    · right; exact ignSAny_sat hD hs hs'.2 hi x
+end
+
+theorem ign_nontv {h : DHint} (hn : ∀ hs, h ≠ .typevar hs) : ign D h = ignS D h := by
+  cases h <;> simp_all [ign]
+
+mutual
+theorem ign_sat (hD : D.Wf) : ∀ (h : DHint), h.Sem D → ign D h = true → ∀ x, dsat D h x = true
   | .typevar hs, hs', hi, x => by
     rw [dsat_typevar]
     simp only [DHint.Sem] at hs'
     simp only [ign] at hi
     exact ignAll_sat hD hs hs'.1 hs'.2 hi x
-  | .annotated h _, hs, hi, x => by
-    simp only [DHint.Sem] at hs
-    simp only [ign] at hi
-    have := ign_sat hD h hs hi x
-    simpa [dsat, toHint] using this
-  | .literal _, _, hi, _ => by simp [ign] at hi
-  | .tupleFixed _, _, hi, _ => by simp [ign] at hi
-  | .tupleVar _, _, hi, _ => by simp [ign] at hi
-  | .cont _ _ _, _, hi, _ => by simp [ign] at hi
-  | .mapping _ _ _, _, hi, _ => by simp [ign] at hi
-  | .callable _ _ _ _, _, hi, _ => by simp [ign] at hi
-theorem ignAny_sat (hD : D.Wf) : ∀ (hs : List DHint), SemAll D hs → ignAny D hs = true → ∀ x, satAny D.W (toHints D hs) x = true
-  | [], _, hi, _ => by simp [ignAny] at hi
-  | h :: hs, hs', hi, x => by
-    simp only [SemAll] at hs'
-    simp only [ignAny, Bool.or_eq_true] at hi
-    simp only [toHints, satAny, Bool.or_eq_true]
-    rcases hi with hi | hi
-    · left; exact ign_sat hD h hs'.1 hi x
-    · right; exact ignAny_sat hD hs hs'.2 hi x
+  | .any, hs, hi, x => ignS_sat D hD _ hs (by simpa [ign] using hi) x
+  | .cls _, hs, hi, x => ignS_sat D hD _ hs (by simpa [ign] using hi) x
+  | .union _, hs, hi, x => ignS_sat D hD _ hs (by simpa [ign] using hi) x
+  | .annotated _ _, hs, hi, x => ignS_sat D hD _ hs (by simpa [ign] using hi) x
+  | .literal _, hs, hi, x => ignS_sat D hD _ hs (by simpa [ign] using hi) x
+  | .tupleFixed _, hs, hi, x => ignS_sat D hD _ hs (by simpa [ign] using hi) x
+  | .tupleVar _, hs, hi, x => ignS_sat D hD _ hs (by simpa [ign] using hi) x
+  | .cont _ _ _, hs, hi, x => ignS_sat D hD _ hs (by simpa [ign] using hi) x
+  | .mapping _ _ _, hs, hi, x => ignS_sat D hD _ hs (by simpa [ign] using hi) x
+  | .callable _ _ _ _, hs, hi, x => ignS_sat D hD _ hs (by simpa [ign] using hi) x
 theorem ignAll_sat (hD : D.Wf) : ∀ (hs : List DHint), hs ≠ [] → SemAll D hs → ignAll D hs = true → ∀ x, satAny D.W (toHints D hs) x = true
   | [], hne, _, _, _ => by simp at hne
   | h :: hs, _, hs', hi, x => by
@@ -489,7 +511,7 @@ theorem brLe_sound (hD : D.Wf) (le eq : DHint → DHint → R) (hle : SoundRel D
       simp only [brLe, Except.ok.injEq] at h
       exact litSubset_sound D h x hs
     | _ =>
-      simp only [brLe, guardE] at h
+      simp only [brLe] at h
       exact brBase_sound D hD le hle _ _ ha hb (Or.inr rfl) h x hx (by simp [origin, inst, hD.nt_obj, hD.obj_top]) hs
   | annotated h' md =>
     simp only [DHint.Sem] at ha
@@ -507,12 +529,12 @@ theorem brLe_sound (hD : D.Wf) (le eq : DHint → DHint → R) (hle : SoundRel D
           | false => rw [hl] at h; cases h
       exact hle h' hb' ha hb this x hx hs
     | _ =>
-      simp only [brLe, guardE] at h
+      simp only [brLe] at h
       exact hle h' _ ha hb h x hx hs
   | tupleFixed as =>
     simp only [DHint.Sem] at ha
     rw [dsat_tupleFixed, Bool.and_eq_true] at hs
-    simp only [brLe, guardE] at h
+    simp only [brLe] at h
     split at h
     · rename_i hig
       simp only [Except.ok.injEq] at h
